@@ -227,4 +227,29 @@ PROPS = {
         "assumptions": ["std: IpAddr::from_str(ip.to_string()) == Ok(ip); IpAddr::from_str / u16::try_from reject everything else as specified",
                         "HashMap<String,String> behaves like the finite-map model of units/U10/prelude.rs (iteration visits each entry once; FromIterator inserts in order)"],
     },
+    "C18": {
+        "units": ["U14"],
+        "level": "proof",
+        "witness": [(r".", "filters")],
+        "sweep": ["filters"],
+        "explanation": "Every built-in filter and strategy is extracted from /repo on this run and verified against what the mechanism denotes, written from the "
+                       "property statement (units/U14/spec.rs): FilterOperation::matches == op_ok (equals / not-equals / exists / not-exists / in / not-in on the possibly "
+                       "missing value), FilterRule::matches reads the rule's key from the target's metadata, MetaFilterAdapter keeps exactly the targets satisfying every rule, "
+                       "in order; the host-name wrapper passes everything through iff its pattern does not match the host name; allow keeps all iff the player is listed by "
+                       "name, pattern or UUID, block drops all iff listed; Vec<T> / DynFilterAdapters are sequential composition (an error ends the chain); AnyStrategyAdapter "
+                       "returns the first candidate; PlayerFillStrategyAdapter returns a candidate below max_players such that no other candidate below max_players is fuller, "
+                       "None only if none is below. The iterator chains (any / all / filter+collect / map+filter+max_by_key) are written out by R32/R35 as the loops std runs "
+                       "and proved with loop invariants. Construction from configuration (DynFilterAdapter::from_config, DynFilterAdapters::from_config, DynStrategyAdapter::"
+                       "from_config, From<config::FilterRule/FilterOperation>, opt_to_regex, opt_vec_to_uuid, the adapters' `new`) is verified too: the chain built from a "
+                       "configuration computes exactly keep(discovered, qualifies-under-every-configured-filter) (clause C18.chain.offers_exactly_...), it is built iff "
+                       "every pattern compiles and every id parses, and lemma_c18_default_strategy / lemma_c18_player_fill_strategy conclude the property's routing "
+                       "statements from these contracts. That Connection::listen routes with select(filter(discover())) is C03 (U3).",
+        "not_covered": ["what a regular expression matches (regex crate: regex_match / regex_compile are uninterpreted)", "u32::from_str, Uuid::parse_str as functions of the text (uninterpreted)",
+                        "MetaFilterAdapter::add_rule (builder not used by the configuration path)", "GrpcStrategyAdapter inside DynStrategyAdapter (not a built-in mechanism; its own contract is C19)"],
+        "assumptions": ["HashMap<String,String>::get behaves like lookup in the finite map of the strings' contents",
+                        "String comparisons through references compare contents (lib/strmodel.rs)",
+                        "Iterator::any / all / max_by_key / filter / map / collect run the loops R32/R35 write out (max_by_key keeps the last of several maxima)",
+                        "derive(Clone) of Target yields an equal value; derive(Default) of AnyStrategyAdapter yields the unit struct",
+                        "suspension points erased (R1): the adapters are sequential"],
+    },
 }
